@@ -42,6 +42,7 @@ import Midgard.Proofs.WriterFilesClu
 import Midgard.Proofs.WriterFilesCrdRange
 import Midgard.Proofs.WriterFilesVel
 import Midgard.Proofs.WriterFilesTms
+import Midgard.Proofs.WriterFilesCsv
 import Midgard.Generated.WriterEffects
 import Midgard.Proofs.WriterSta
 
@@ -302,6 +303,13 @@ theorem clu_file_roundtrip (texts : List Str) (keys : List Str) (h : cluInRange 
     ∃ file, cluFile texts keys = some file ∧ cluParse file = (sortBy strLe keys).map cluRecord :=
   clu_file_roundtrip_aux texts keys h
 
+/-- header texts without line breaks give the headers the parsers skip exactly: VEL (read by the CRD parser, 6 lines) and
+CLU (5 lines) — the header half of `velInRange` / `cluInRange` from explicit bounds -/
+theorem vel_clu_headers_ok (solution stamp datum : Str) (h1 : noBreaks solution) (h2 : noBreaks stamp) (h3 : noBreaks datum) :
+    (∃ hdr, headerText "bernese_vel" [solution, stamp, datum] = some hdr ∧ headerOk crdSpec hdr = true) ∧
+    (∃ hdr, headerText "bernese_clu" [solution, stamp] = some hdr ∧ headerOk cluSpec hdr = true) :=
+  ⟨vel_header_ok solution stamp datum h1 h2 h3, clu_header_ok solution stamp h1 h2⟩
+
 /-- **`readBack p` is rounding to `p` decimals**: within half a unit of the last printed digit, and the value itself
 when it has no more than `p` decimals -/
 theorem readback_is_rounding (p : Nat) (q : Rat) :
@@ -405,6 +413,19 @@ theorem tms_columns_right_aligned :
     ((dataFieldTypes.map fun p => asString (lower p.1.toList)).Nodup) := by
   decide +kernel
 
+/-! ### csv_, line level -/
+
+/-- **A csv data line read back.**  For every list of formats (`%s`, `%d`, `%.nf`) and values: the line `np.savetxt` writes,
+cut at `,` / `;` (the separator class of parsers/csv_.py), gives as many pieces as values, each piece the text of its value,
+and that text reads back (`csvReadsBack`: a number as the value rounded to its decimals, an integer exactly, `nan` as `nan`,
+text as itself) — provided no text value contains a separator.  (What pandas then infers per column — dtype, NaN columns —
+is measured, not modelled.) -/
+theorem csv_line_roundtrip (fmts : List CsvFmt) (vals : List Value) (line : Str) (h : csvLine fmts vals = some line)
+    (hne : vals ≠ []) (hs : ∀ s, Value.str s ∈ vals → ∀ c ∈ s, isCsvSep c = false) :
+    ∃ texts, splitSep line = texts ∧
+      List.Forall₂ (fun (fv : CsvFmt × Value) t => csvReadsBack fv.1 fv.2 t) (fmts.zip vals) texts :=
+  csv_line_roundtrip_aux fmts vals line h hne hs
+
 /-! ### the writers do not alter what they are given -/
 
 /-- **No writer assigns to, deletes from or calls a mutating method on an object reachable from its arguments or
@@ -485,6 +506,8 @@ example : tmsRowsInRange ["YYYY-MM-DD", "YEAR", "X", "EAST"]
     [[("YYYY-MM-DD", .str "2023-05-22".toList), ("YEAR", .num (202338767 / 100000)), ("X", .num (43312968156 / 10000)),
       ("EAST", .num (-99999))]] = true := by decide +kernel
 
+example : ∃ line, csvLine [.s, .f 2, .d] [.str "G01".toList, .num (5 / 2), .int 7] = some line := ⟨_, rfl⟩
+
 example : cluInRange ["NMA solution".toList, "30-SEP-26 02:09".toList] ["zimm".toList, "0abi".toList, "ab".toList] = true := by
   decide +kernel
 
@@ -512,6 +535,7 @@ end Midgard.Props.C17
 #print axioms Midgard.Props.C17.crd_layout_is
 #print axioms Midgard.Props.C17.crd_file_roundtrip
 #print axioms Midgard.Props.C17.crd_range_sufficient
+#print axioms Midgard.Props.C17.vel_clu_headers_ok
 #print axioms Midgard.Props.C17.readback_is_rounding
 #print axioms Midgard.Props.C17.vel_layout_is
 #print axioms Midgard.Props.C17.vel_file_roundtrip
@@ -527,6 +551,7 @@ end Midgard.Props.C17
 #print axioms Midgard.Props.C17.tms_data_block_roundtrip
 #print axioms Midgard.Props.C17.tms_float_column_rounded
 #print axioms Midgard.Props.C17.tms_columns_right_aligned
+#print axioms Midgard.Props.C17.csv_line_roundtrip
 #print axioms Midgard.Props.C17.writers_assign_nothing_on_inputs
 #print axioms Midgard.Props.C17.writer_effect_roots_cover
 #print axioms Midgard.Props.C17.blocks_balanced
